@@ -90,6 +90,15 @@ func runSol(o *Out, rng *rand.Rand, thorough bool) {
 		}
 		c := genCase(rng, p)
 		c.Solve = &CSolve{Runs: []int{1, 1, 2, 4}[rng.Intn(4)], Starts: rng.Intn(3), Det: rng.Intn(2) == 0, Iters: iters}
+		if ci%3 == 2 {
+			// start solutions supplied by the caller, more of them than runs, a budget that the first runs may use up:
+			// the run that would start from the best of them may never begin
+			c.Solve.Explicit = 3 + rng.Intn(3)
+			c.Solve.ExplicitSeed = rng.Int63()
+			c.Solve.Starts = 0
+			c.Solve.Runs = 1 + rng.Intn(2)
+			c.Solve.Iters = []int{0, 1, 3, 10, 40}[rng.Intn(5)]
+		}
 		if replayFile != "" {
 			c = loadReplayCase(replayFile)
 			if c.Solve == nil {
@@ -126,7 +135,16 @@ func runSol(o *Out, rng *rand.Rand, thorough bool) {
 				rec.mu.Unlock()
 			}
 		}
-		sols, starts, serr, span := solveAll(bt.model, opt)
+		var startSols []nextroute.Solution
+		var startScores []float64
+		if c.Solve.Explicit > 0 {
+			startSols, startScores = explicitStarts(bt.model, c.Solve.Explicit, c.Solve.ExplicitSeed)
+			o.Count(fmt.Sprintf("explicit-start-solutions:%d", len(startSols)))
+		}
+		sols, starts, serr, span := solveAllWith(bt.model, opt, nil, startSols...)
+		if len(startSols) > 0 {
+			starts = startScores
+		}
 		nextroute.VerifHook = nil
 		if span != nil {
 			o.Violate(Violation{Property: "C16", Clause: "panic-in-solve", Sig: "C16|panic-in-solve", Detail: fmt.Sprint(span), Replay: c})
@@ -134,7 +152,10 @@ func runSol(o *Out, rng *rand.Rand, thorough bool) {
 		}
 		if serr != nil {
 			o.Count("solve-error:" + errKind(serr))
-			if strings.Contains(serr.Error(), "infeasible initial") || strings.Contains(serr.Error(), "no feasible route") {
+			// the input's initial stops are rejected (with an error, as C16 asks): infeasible, or an order the unit's DAG
+			// (direct arcs included) does not allow — the generator's initial routes respect precedence, not adjacency
+			if strings.Contains(serr.Error(), "infeasible initial") || strings.Contains(serr.Error(), "no feasible route") ||
+				strings.Contains(serr.Error(), "in start assignment of vehicle") {
 				continue
 			}
 			o.Violate(Violation{Property: "C16", Clause: "engine-error", Sig: "C16|engine-error|" + errKind(serr), Detail: serr.Error(), Replay: c})
@@ -209,7 +230,7 @@ func solveAll(model nextroute.Model, opt nextroute.ParallelSolveOptions) (sols [
 }
 
 // solveAllWith: as solveAll, with a hook to register event handlers on the solver before it starts.
-func solveAllWith(model nextroute.Model, opt nextroute.ParallelSolveOptions, setup func(nextroute.ParallelSolver)) (sols []nextroute.Solution, starts []float64, err error, pan any) {
+func solveAllWith(model nextroute.Model, opt nextroute.ParallelSolveOptions, setup func(nextroute.ParallelSolver), startSols ...nextroute.Solution) (sols []nextroute.Solution, starts []float64, err error, pan any) {
 	defer func() {
 		if r := recover(); r != nil {
 			pan = r
@@ -224,7 +245,7 @@ func solveAllWith(model nextroute.Model, opt nextroute.ParallelSolveOptions, set
 	}
 	ctx, cancel := solveCtx(60 * time.Second)
 	defer cancel()
-	ch, e := solver.Solve(ctx, opt)
+	ch, e := solver.Solve(ctx, opt, startSols...)
 	if e != nil {
 		return nil, nil, e, nil
 	}
@@ -237,3 +258,42 @@ func solveAllWith(model nextroute.Model, opt nextroute.ParallelSolveOptions, set
 	return sols, nil, nil, nil
 }
 
+
+// explicitStarts builds k start solutions with different numbers of units planned (so different scores), in an
+// order drawn from the seed — the caller-supplied start solutions of the C06 guarantee ("never worse than the best
+// supplied start solution").
+func explicitStarts(model nextroute.Model, k int, seed int64) (out []nextroute.Solution, scores []float64) {
+	defer func() {
+		if r := recover(); r != nil {
+			out, scores = nil, nil
+		}
+	}()
+	rng := rand.New(rand.NewSource(seed))
+	ctx := context.Background()
+	for j := 0; j < k; j++ {
+		s, err := nextroute.NewSolution(model)
+		if err != nil {
+			return nil, nil
+		}
+		s.SetRandom(rand.New(rand.NewSource(seed + int64(j))))
+		n := rng.Intn(1 + len(s.UnPlannedPlanUnits().SolutionPlanUnits()))
+		for i := 0; i < n; i++ {
+			us := s.UnPlannedPlanUnits().SolutionPlanUnits()
+			if len(us) == 0 {
+				break
+			}
+			mv := s.BestMove(ctx, us[rng.Intn(len(us))])
+			if mv.IsExecutable() {
+				if ok, err := mv.Execute(ctx); err != nil || !ok {
+					break
+				}
+			}
+		}
+		out = append(out, s)
+	}
+	rng.Shuffle(len(out), func(i, j int) { out[i], out[j] = out[j], out[i] })
+	for _, s := range out {
+		scores = append(scores, s.Score())
+	}
+	return out, scores
+}
